@@ -376,6 +376,29 @@ fn main() {
                         Err(e) => rec["res"] = err_rusl(&e),
                     }
                 }
+                "poll_reuse" => {
+                    // the caller keeps ONE TimeSpec and passes it (by shared reference) to two calls
+                    let timeout = op["timeout"].as_i64().unwrap_or(20);
+                    let entries = op["entries"].as_array().unwrap();
+                    let mk = || -> Vec<PollFd> {
+                        entries.iter().map(|e| PollFd::new(fd(objs[e["o"].as_u64().unwrap() as usize - 1].watched), poll_mask(&e["ev"]))).collect()
+                    };
+                    let ts = TimeSpec::new(timeout / 1000, (timeout % 1000) * 1_000_000);
+                    let mut calls = vec![];
+                    for _ in 0..2 {
+                        let mut pfds = mk();
+                        let t0 = Instant::now();
+                        let res = rusl::select::ppoll(&mut pfds, Some(&ts), None);
+                        let us = t0.elapsed().as_micros().min(1 << 30) as u64;
+                        calls.push(match res {
+                            Ok(n) => json!({"ok": true, "n": n, "us": us}),
+                            Err(e) => json!({"ok": false, "n": 0, "us": us, "err": err_rusl(&e)}),
+                        });
+                    }
+                    rec["res"] = json!("ok");
+                    rec["calls"] = json!(calls);
+                    rec["ts_after_us"] = json!((ts.seconds() * 1_000_000 + ts.nanoseconds() / 1000).clamp(0, 1 << 30));
+                }
                 x => panic!("unknown op {x}"),
             }
             writeln!(out, "{rec}").unwrap();
